@@ -45,6 +45,8 @@ const TOKENS: &[(&str, K)] = &[
     ("\"text\"", K::Quoted), ("\"d-m-y h:s\"", K::Quoted), ("\"c:\\\"", K::Quoted), ("\"_\"", K::Quoted), ("\"a;b\"", K::Quoted), ("\"[h]\"", K::Quoted), ("\"AM/PM\"", K::Quoted), ("\"\"", K::Quoted),
     ("\\d", K::Escaped), ("\\ ", K::Escaped), ("\\-", K::Escaped), ("\\;", K::Escaped), ("\\\"", K::Escaped), ("\\\\", K::Escaped), ("_d", K::Escaped), ("_)", K::Escaped), ("_ ", K::Escaped), ("_\"", K::Escaped),
     ("[Red]", K::Bracket), ("[Blue]", K::Bracket), ("[Magenta]", K::Bracket), ("[Color 3]", K::Bracket), ("[>=100]", K::Bracket), ("[<0]", K::Bracket), ("[$-409]", K::Bracket), ("[$€-2]", K::Bracket), ("[$-F800]", K::Bracket), ("[DBNum1]", K::Bracket), ("[$-1010000]", K::Bracket),
+    // literal non-ASCII letters whose Unicode case mappings are ASCII date letters (S, SS, H, Y, k)
+    ("\u{df}", K::Sep), ("\u{17f}", K::Sep), ("\u{1e96}", K::Sep), ("\u{1e99}", K::Sep), ("\u{212a}", K::Sep), ("\u{20ac}", K::Sep), ("[$\u{17f}-407]", K::Bracket),
     ("-", K::Sep), ("/", K::Sep), (":", K::Sep), (" ", K::Sep), ("(", K::Sep), (")", K::Sep),
 ];
 
@@ -262,6 +264,19 @@ fn workbooks(rng: &mut Rng, out: &mut UnitResult, unit: u64, i: u64) {
             let f = NumFmt { id, code: Some(code), class };
             customs.push(f.clone());
             xfs.push(f);
+        }
+    }
+    // style tables with more than 256 cell XFs: the index a cell carries does not fit one byte
+    if rng.chance(1, 6) {
+        out.feat("xf_index>=256");
+        for _ in 0..(250 + rng.usize(400)) {
+            let id = *rng.pick(&[0u16, 2, 14, 46, 20, 1, 22, 49]);
+            let class = match id {
+                14..=22 => FmtClass::Date,
+                46 => FmtClass::Duration,
+                _ => FmtClass::Other,
+            };
+            xfs.push(NumFmt { id, code: None, class });
         }
     }
     for f in &xfs {
